@@ -20,7 +20,32 @@ type Kind int
 const (
 	KInt Kind = iota
 	KBool
+	KOpq // a value of an opaque Lean type (Node.T), never nil
+	KOpt // a Go value that may be nil (pointer, interface, error): `Option T`
+	KTup // the results of a call with several results (Node.Comp)
 )
+
+// TypeSpec is the Lean type of a Go value: Int (with unit), Bool, an opaque type T, or `Option T`.
+type TypeSpec struct {
+	K Kind
+	U Unit
+	T string
+}
+
+func (ts TypeSpec) Lean() string {
+	switch ts.K {
+	case KInt:
+		return "Int"
+	case KBool:
+		return "Bool"
+	case KOpt:
+		return "Option " + ts.T
+	default:
+		return ts.T
+	}
+}
+
+func (ts TypeSpec) same(o TypeSpec) bool { return ts.K == o.K && ts.T == o.T }
 
 // Unit tells what an integer counts. Durations are modelled in whole seconds.
 type Unit int
@@ -47,14 +72,54 @@ func (u Unit) String() string {
 //	let(Name, Args[0] value, Args[1] body)
 //	call(Name, Args...)                               another generated definition
 //	need(Args[0] condition, Args[1] value)            value, defined only where the condition holds
+//
+// values of opaque types and effects (families with Effectful set):
+//
+//	onone(T) owrap(Args[0]) osome(Args[0]) oany(Name, Args[0])    nil, `some x`, `x != nil`, `x.any f`
+//	ucall(Name, Args...)                              an uninterpreted function (a parameter of the definition); Eff: it
+//	                                                  runs in the context monad (may change the context, may panic)
+//	tuple(Args...)                                    several values
+//	bind(Names, Args[0] call, Args[1] rest)           Eff of the call: `Go.bind call fun (names) => rest`, else `let (names) := call`
+//	ret(Args[0])                                      `Go.pure v`
+//	loopcall(Loop, Args...)                           the loop function on the varying arguments
+//	slen                                              length of the slice the function ranges over
+//	gopanic(Name)                                     a Go panic (nil dereference)
 type Node struct {
 	Op    string
 	K     Kind
 	U     Unit
+	T     string
 	Val   int64
 	Name  string
+	Names []string
+	Comp  []TypeSpec
 	Args  []*Node
 	Eager bool
+	Eff   bool
+	Loop  *LoopDef
+}
+
+// Spec is the type of the value of a node.
+func (n *Node) Spec() TypeSpec { return TypeSpec{K: n.K, U: n.U, T: n.T} }
+
+// LoopDef is a `for … range` loop turned into a structurally recursive function over the list: Nil is what happens
+// when the list is exhausted (the code after the loop), Cons the loop body on the first element; `continue` and the end
+// of the body call the function on the rest, `break` goes to the code after the loop.
+type LoopDef struct {
+	Name    string
+	Idx     string    // Lean name of the index variable ("" if the loop has none)
+	Elem    string    // Lean name of the element variable
+	ElemT   string    // Lean type of the elements
+	Rest    string    // Lean name of the remaining list
+	Carried []LoopVar // variables declared before the loop and assigned in it
+	Extra   []LoopVar // further variables declared before the loop that the loop or the code after it reads
+	Nil     *Node
+	Cons    *Node
+}
+
+type LoopVar struct {
+	Name string
+	Type TypeSpec
 }
 
 func Lit(v int64, u Unit) *Node { return &Node{Op: "lit", K: KInt, U: u, Val: v} }
@@ -117,17 +182,17 @@ func Or(a, b *Node) *Node {
 	return &Node{Op: "or", K: KBool, Args: []*Node{a, b}}
 }
 func Ite(c, a, b *Node, eager bool) *Node {
-	return &Node{Op: "ite", K: a.K, U: a.U, Args: []*Node{c, a, b}, Eager: eager}
+	return &Node{Op: "ite", K: a.K, U: a.U, T: a.T, Args: []*Node{c, a, b}, Eager: eager}
 }
 func Let(name string, v, body *Node) *Node {
-	return &Node{Op: "let", K: body.K, U: body.U, Name: name, Args: []*Node{v, body}}
+	return &Node{Op: "let", K: body.K, U: body.U, T: body.T, Name: name, Args: []*Node{v, body}}
 }
 func Need(cond, v *Node) *Node {
 	if cond.isTrue() {
 		return v
 	}
 
-	return &Node{Op: "need", K: v.K, U: v.U, Args: []*Node{cond, v}}
+	return &Node{Op: "need", K: v.K, U: v.U, T: v.T, Args: []*Node{cond, v}}
 }
 func Bin(op string, a, b *Node, u Unit) *Node {
 	return &Node{Op: op, K: KInt, U: u, Args: []*Node{a, b}}
@@ -137,8 +202,14 @@ func Cmp(op string, a, b *Node) *Node { return &Node{Op: op, K: KBool, Args: []*
 // same: structurally equal expressions
 func same(a, b *Node) bool {
 	if a.Op != b.Op || a.K != b.K || a.Val != b.Val || a.Name != b.Name || len(a.Args) != len(b.Args) ||
-		a.Eager != b.Eager {
+		a.Eager != b.Eager || a.T != b.T || len(a.Names) != len(b.Names) || a.Loop != b.Loop {
 		return false
+	}
+
+	for i := range a.Names {
+		if a.Names[i] != b.Names[i] {
+			return false
+		}
 	}
 
 	for i := range a.Args {
@@ -160,8 +231,16 @@ func (n *Node) IsZeroConst() bool { return n.Op == "lit" && n.Val == 0 }
 // evaluation order is respected: operands of && and || and the branches of an if are only evaluated when reached.
 func Defined(n *Node) *Node {
 	switch n.Op {
-	case "lit", "blit", "var", "some":
+	case "lit", "blit", "var", "some", "onone", "slen":
 		return BLit(true)
+	case "bind":
+		if n.Eff {
+			return BLit(false) // not a value
+		}
+
+		return And(Defined(n.Args[0]), Defined(n.Args[1]))
+	case "ret", "loopcall", "gopanic":
+		return BLit(false)
 	case "get":
 		return Some(n.Name)
 	case "not":
@@ -226,6 +305,14 @@ func mentions(n *Node, name string) bool {
 		return mentions(n.Args[0], name)
 	}
 
+	if n.Op == "bind" {
+		for _, b := range n.Names {
+			if b == name {
+				return mentions(n.Args[0], name)
+			}
+		}
+	}
+
 	for _, a := range n.Args {
 		if mentions(a, name) {
 			return true
@@ -286,4 +373,50 @@ func unify(a, b *Node) (Unit, error) {
 	}
 
 	return UNone, fmt.Errorf("operands count different things: %s and %s", ua, ub)
+}
+
+// Simplify removes what has no effect on the value: a `let` / a pure call whose result is not used, an `if` with two
+// equal branches (what is left of statements that only feed log output). Effects are never removed.
+func Simplify(n *Node) *Node {
+	if n == nil || len(n.Args) == 0 {
+		return n
+	}
+
+	c := *n
+	c.Args = make([]*Node, len(n.Args))
+
+	for i, a := range n.Args {
+		c.Args[i] = Simplify(a)
+	}
+
+	switch c.Op {
+	case "let":
+		if !mentions(c.Args[1], c.Name) && Defined(c.Args[0]).isTrue() {
+			return c.Args[1]
+		}
+	case "bind":
+		if c.Eff {
+			break
+		}
+
+		used := false
+
+		for _, b := range c.Names {
+			used = used || (b != "_" && mentions(c.Args[1], b))
+		}
+
+		if !used && Defined(c.Args[0]).isTrue() {
+			return c.Args[1]
+		}
+	case "ite":
+		if same(c.Args[1], c.Args[2]) && Defined(c.Args[0]).isTrue() {
+			return c.Args[1]
+		}
+	case "need":
+		if c.Args[0].isTrue() {
+			return c.Args[1]
+		}
+	}
+
+	return &c
 }
